@@ -1166,7 +1166,10 @@ pub fn generate(seed: u64, case: u64, max_steps: usize) -> Ran {
                 ),
                 None => (if r.chance(1, 15) { vec![(0, Uint128::new(3))] } else { vec![] }, None),
             };
-            Step::Call { h, t, s: member, op: Op::Propose { title, msgs, latest, funds, allow } }
+            // a member of weight 0 may propose (its implicit Yes weighs nothing): make sure it happens
+            let zero_members: Vec<usize> = voters.iter().filter_map(|(a, wt)| match a { Arg::Id(i) if *wt == 0 => Some(*i), _ => None }).collect();
+            let proposer = if !zero_members.is_empty() && r.chance(1, 3) { *r.pick(&zero_members) } else { member };
+            Step::Call { h, t, s: proposer, op: Op::Propose { title, msgs, latest, funds, allow } }
         } else if kind < 70 {
             let v = match r.below(10) {
                 0..=4 => V::Yes,
